@@ -445,6 +445,35 @@ def loadEvents (ex : List CStr) (name : CStr) : List Ev × Bool :=
       | none => []
       | some p => [.fs "open" false p]), a.opened.isSome)
 
+/-- `ldb name` (SaveBinaryDir configured; the source `<strip_name name>.c` with `#pragma save_binary` exists whenever
+    that is a safe path): the object is loaded twice — save_binary, then load_binary.  The harness prints no libc
+    call on a safe path in this mode (lib/lpc/program/binaries.c is C17's ground, its call sequence is not pinned
+    here), so the model trace is the summary line: the binary exists afterwards iff the name is loadable. -/
+def saveBinaryDir : CStr := str "/bin"     -- props/c15.py: `SaveBinaryDir /bin` in the conf of these runs
+
+def joinPath : List CStr → CStr
+  | [] => []
+  | [c] => c
+  | c :: cs => c ++ '/' :: joinPath cs
+
+/-- can the harness create the source file `p` in the fixture (no directory prefix is a plain file, `p` itself
+    is not a directory)? -/
+def creatable (ex : List CStr) (p : CStr) : Bool :=
+  let cs := comps p
+  ((List.range cs.length).all (fun k => k = 0 || lookup ex (joinPath (cs.take k)) ≠ some .file)) &&
+    lookup ex p ≠ some .dir
+
+def binaryEvents (name : CStr) : List Ev :=
+  let saved : Bool := match loadRealName name with
+    | none => false
+    | some rn =>
+      legalPath rn && creatable [] rn &&
+        -- repaired save_binary / load_binary: SaveBinaryDir "/" name (+ NUL) must fit file_name_buf[200] resp. one
+        -- half of load_binary's file_name_buf[400]; otherwise nothing is saved (before: stack overrun)
+        decide (saveBinaryDir.length + rn.length + 2 ≤ NV.Gen.C15.saveBinaryNameSize) &&
+        decide (saveBinaryDir.length + rn.length + 2 ≤ NV.Gen.C15.loadBinaryNameSize / 2)
+  [.note s!"binary {showP name} saved={if saved then 1 else 0}"]
+
 /-- opens made for `#include "name"` inside `base`: tried in order until one exists -/
 def includeOpens (ex : List CStr) (base name : CStr) : List Ev :=
   let rec go : List CStr → List Ev
